@@ -57,24 +57,29 @@ def expandWith (openWrapper : Int → Spec.Msg → Option (List (Int × Spec.Msg
       else if m.attributes % 8 = 1 then (openWrapper off m).map (· ++ tail)
       else none
 
+/-- what a gzip wrapper at offset `off` contains, given how to expand the set inside it -/
+def openWrapper (crc : Bytes → Nat) (gunzip : Bytes → Option Bytes)
+    (expandInner : List (Int × Spec.Msg) → Option (List (Int × Spec.Msg))) (off : Int) (m : Spec.Msg) :
+    Option (List (Int × Spec.Msg)) :=
+  match m.value with
+  | none => none
+  | some gz => match gunzip gz with
+    | none => none
+    | some raw => match (Spec.messageSet crc).dec raw with
+      | none => none
+      | some inner => match expandInner inner with
+        | none => none
+        | some flat =>
+          if m.magic = 1 then
+            match flat.getLast? with
+            | none => some []
+            | some last => some (flat.map (fun e => (off - last.1 + e.1, e.2)))
+          else some flat
+
 def expand (crc : Bytes → Nat) (gunzip : Bytes → Option Bytes) :
     Nat → List (Int × Spec.Msg) → Option (List (Int × Spec.Msg))
   | 0, l => expandWith (fun _ _ => none) l
-  | d+1, l => expandWith (fun off m =>
-      match m.value with
-      | none => none
-      | some gz => match gunzip gz with
-        | none => none
-        | some raw => match (Spec.messageSet crc).dec raw with
-          | none => none
-          | some inner => match expand crc gunzip d inner with
-            | none => none
-            | some flat =>
-              if m.magic = 1 then
-                match flat.getLast? with
-                | none => some []
-                | some last => some (flat.map (fun e => (off - last.1 + e.1, e.2)))
-              else some flat) l
+  | d+1, l => expandWith (openWrapper crc gunzip (expand crc gunzip d)) l
 
 /-- the iteration of afkak's message-set generator that the property demands -/
 def expectedSet (crc : Bytes → Nat) (gunzip : Bytes → Option Bytes) (depth : Nat)
